@@ -3,6 +3,7 @@ use serde::{Deserialize, Serialize};
 
 use crate::core::{Error, Method, PeriodType, Source, OHLCV};
 use crate::core::{IndicatorConfig, IndicatorInstance, IndicatorResult};
+use crate::helpers::Peekable;
 use crate::methods::{ReversalSignal, HMA};
 
 /// Hull Moving Average indicator
@@ -57,9 +58,12 @@ impl IndicatorConfig for HullMovingAverage {
 		let cfg = self;
 		let src = candle.source(cfg.source);
 
+		let hma = HMA::new(cfg.period, &src)?;
+
 		Ok(Self::Instance {
-			hma: HMA::new(cfg.period, &src)?,
-			pivot: ReversalSignal::new(cfg.left, cfg.right, &src)?,
+			// seed the reversal detector with the value it is going to receive, not with the source price
+			pivot: ReversalSignal::new(cfg.left, cfg.right, &hma.peek())?,
+			hma,
 			cfg,
 		})
 	}
